@@ -37,7 +37,7 @@ class Loader:
         self._routines.clear()
         self._load_runtime()
         if instructions is not None:
-            self._iter = iter(instructions)
+            self._iter = iter(Loader._relocate_jumps(list(instructions)))
             inst = self._next_inst()
             while inst is not None:
                 if inst.op_code is OpCode.ROUTINE:
@@ -46,6 +46,47 @@ class Loader:
                 else:
                     self._main_segment.append(inst)
                 inst = self._next_inst()
+
+    @staticmethod
+    def _relocate_jumps(instructions):
+        """
+        Routines are moved out of the main code. A relative jump in the main
+        code that spans a routine definition has to be shortened by the length
+        of that definition. Jumps inside a routine are unaffected. The incoming
+        instructions are not modified.
+        """
+        in_routine = []
+        name = None
+        for inst in instructions:
+            if name is None:
+                if inst.op_code is OpCode.ROUTINE:
+                    name = inst.param0
+                in_routine.append(name is not None)
+            else:
+                in_routine.append(True)
+                if inst.op_code is OpCode.END and inst.param0 == name:
+                    name = None
+        if True not in in_routine:
+            return instructions
+
+        # main_pos[i] is the number of main-segment instructions before i.
+        main_pos = [0]
+        for flag in in_routine:
+            main_pos.append(main_pos[-1] + (0 if flag else 1))
+
+        relocated = []
+        for index, inst in enumerate(instructions):
+            if (not in_routine[index]
+                    and inst.op_code is OpCode.JUMP
+                    and inst.param0 is not JumpCondition.INDIRECT
+                    and isinstance(inst.param1, int)):
+                target = index + inst.param1
+                if 0 <= target <= len(instructions):
+                    offset = main_pos[target] - main_pos[index]
+                    if offset != inst.param1:
+                        inst = Instruction(OpCode.JUMP, inst.param0, offset)
+            relocated.append(inst)
+        return relocated
 
     @inject(i_runtime.Runtime)
     def _load_runtime(self, runtime):
